@@ -50,7 +50,7 @@ def main(argv):
              "strings, comments, doc tags), mutated windows of the bundled std files, std windows x generated configurations, and generated "
              "IRs over all 12 DocIR constructors x generated printer settings (width 0..120, tab/space, indent 0..8, LF/CRLF, comment padding); "
              "non-trivial = IR longer than 40 characters; distinct by (IR, printer settings). search: corpus witnesses, the 20 bundled std files "
-             "(default and generated configurations), mutated std files, generated programs; distinct by (text, configuration); a case is "
+             "(default and generated configurations), mutated std files, generated programs, at least half of the cases under the default configuration; a violation is identified by the minimal set of non-default options that reproduces it (delta debugging of the configuration) or, under the default configuration, by its class and the construct at the failing position; distinct by (text, configuration); a case is "
              "non-trivial when the text is longer than 20 bytes",
         assumptions=["widths and columns below 2^63 (Rust isize)", "correspondence and search are sampled (they validate the model and look for replays; the theorems carry the all-IR claim for the printer)",
                      "the IR builder is checked per run, not proved: its defects appear as search violations / known findings"])
